@@ -49,6 +49,30 @@ def native_failure(modname, gname, x, opts, today):
     r = call_real('%s:%s' % (modname, gname), [rv[1]], None, today)
     if r[0] == 'raise' and not is_validation_error(r):
         return '%s(%r) raises %s: %s' % (gname, rv[1], r[1], r[2][:60])
+    if r[0] == 'return' and gname == 'get_birth_date' and r[1] is not None:
+        from contracts.birthdates import RULES
+        rule = RULES.get(modname)
+        v = rv[1]
+        d = r[1]
+        if rule and hasattr(d, 'year'):
+            try:
+                yy, mm, dd = int(v[rule[0][0]:rule[0][1]]), int(v[rule[1][0]:rule[1][1]]), int(v[rule[2][0]:rule[2][1]])
+                red = {'id': lambda x: x, 'mod20': lambda x: x % 20, 'mod50mod20': lambda x: (x % 50) % 20, 'mod40': lambda x: x % 40}
+                if d.year % 100 != yy or d.month != red[rule[3]](mm) or d.day != red[rule[4]](dd):
+                    return 'get_birth_date(%r) = %s does not agree with the date digits of the number' % (v, d)
+                if rule[5] == 'pesel' and d.year - d.year % 100 != (1800 if mm // 20 == 4 else 1900 + 100 * (mm // 20)):
+                    return 'get_birth_date(%r) = %s does not agree with the century marker in the month digits' % (v, d)
+                if rule[5] == 'egn' and d.year - d.year % 100 != {1: 1800, 2: 2000}.get(mm // 20, 1900):
+                    return 'get_birth_date(%r) = %s does not agree with the century marker in the month digits' % (v, d)
+            except ValueError:
+                pass
+        for other, attr in (('get_birth_year', 'year'), ('get_birth_month', 'month')):
+            import importlib as _il
+            m_ = _il.import_module(modname)
+            if hasattr(m_, other) and hasattr(d, attr):
+                o = call_real('%s:%s' % (modname, other), [rv[1]], None, today)
+                if o[0] == 'return' and o[1] is not None and o[1] != getattr(d, attr):
+                    return 'get_birth_date(%r) = %s but %s() = %r' % (v, d, other, o[1])
     if r[0] == 'return' and gname == 'get_gender' and r[1] not in ('M', 'F', None):
         return 'get_gender returns %r' % (r[1],)
     if r[0] == 'return' and gname == 'split' and ''.join(r[1]) != rv[1]:
@@ -69,6 +93,23 @@ def checker_factory(modname):
                 extra = None
                 if gname == 'get_birth_date' and isinstance(r, SymDate):
                     extra = {}
+                    from contracts.birthdates import RULES
+                    rule = RULES.get(modname)
+                    if rule:
+                        chars = tostr(v).chars
+                        yy = I.to_int(FixedStr(chars[rule[0][0]:rule[0][1]]))
+                        mm = I.to_int(FixedStr(chars[rule[1][0]:rule[1][1]]))
+                        dd = I.to_int(FixedStr(chars[rule[2][0]:rule[2][1]]))
+                        red = {'id': lambda x: x, 'mod20': lambda x: x % 20, 'mod50mod20': lambda x: (x % 50) % 20, 'mod40': lambda x: x % 40}
+                        extra['the year digits'] = (r.y % 100, yy)
+                        extra['the month digits'] = (r.m, red[rule[3]](mm))
+                        extra['the day digits'] = (r.d, red[rule[4]](dd))
+                        if rule[5] == 'pesel':
+                            k = mm / 20 if is_sym(mm) else mm // 20
+                            extra['the century marker'] = (r.y - r.y % 100, z3.If(k == 4, 1800, 1900 + 100 * k) if is_sym(k) else (1800 if k == 4 else 1900 + 100 * k))
+                        elif rule[5] == 'egn':
+                            k = mm / 20 if is_sym(mm) else mm // 20
+                            extra['the century marker'] = (r.y - r.y % 100, z3.If(k == 1, 1800, z3.If(k == 2, 2000, 1900)) if is_sym(k) else {1: 1800, 2: 2000}.get(k, 1900))
                     for other, attr in (('get_birth_year', 'y'), ('get_birth_month', 'm')):
                         if other in by:
                             try:
@@ -118,15 +159,15 @@ def checker_factory(modname):
                             extra_cond = None if c is False else Not(c)
                     elif extra:
                         for other, pair in extra.items():
-                            if pair[0] == 'raises':
+                            if isinstance(pair[0], str) and pair[0] == 'raises':
                                 continue
                             a, b = pair
                             c = (a == b)
                             if isinstance(c, bool):
                                 if not c:
-                                    what = 'get_birth_date disagrees with %s' % other
+                                    what = 'get_birth_date disagrees with %s' % other.replace('get_birth_year', 'get_birth_year()').replace('get_birth_month', 'get_birth_month()')
                             elif not ctx.entails(c):
-                                what = 'get_birth_date disagrees with %s' % other
+                                what = 'get_birth_date disagrees with %s' % other.replace('get_birth_year', 'get_birth_year()').replace('get_birth_month', 'get_birth_month()')
                                 extra_cond = z3.Not(c)
                 if what is None:
                     continue
